@@ -58,6 +58,9 @@ inductive Ev where
   | announce (n : Nat) (seen : Option Nat)
   | listen (n timeout : Nat) (included : List Nat)
   | attempt (n start timeout : Nat) (excluded : List Nat) (seen : Option Nat)
+  /-- the DKG loop's call of the attempt function; `readyCount` = number of members the announcer
+      had returned in that iteration -/
+  | dattempt (n start timeout : Nat) (excluded : List Nat) (readyCount : Nat)
   | signal (n : Nat)
   | waitDone (n : Nat)
   | retOk (n timeout : Nat)
@@ -83,17 +86,17 @@ structure SStep where
   fn : Fn
   deriving Repr
 
-/-- Signing loop.  The harness only scripts groups with one seat per operator and ready lists of at
-    most `threshold` members, where `performMembersSelection` has no choice:
-    excluded = members that are not ready (C10 covers the general selection). -/
-def sgLoop (c : Consts) (groupSize thr member : Nat) : Nat → Nat → List SStep → List Ev
+/-- Signing loop.  `sel n ready` is `performMembersSelection` at attempt `n` (model C10, or any
+    other function: the window theorems hold for every `sel`). -/
+def sgLoop (c : Consts) (sel : Nat → List Nat → Out) (groupSize thr member : Nat) :
+    Nat → Nat → List SStep → List Ev
   | k, _, [] => [.cur (k + 1), .retCtx]   -- script over: the block counter fails and the context ends
   | k, sb, st :: rest =>
     let n := k + 1
     let sb' := nextStart c k sb
     let as := sb' + c.delay
     let ae := as + c.active
-    let next := sgLoop c groupSize thr member n sb' rest
+    let next := sgLoop c sel groupSize thr member n sb' rest
     match st.cur with
     | none => .cur n :: next
     | some cur =>
@@ -103,8 +106,11 @@ def sgLoop (c : Consts) (groupSize thr member : Nat) : Nat → Nat → List SSte
       else if st.ready.length < thr then
         .cur n :: .wait n as :: .asyncAnn n ae :: .announce n (some cur) :: next
       else
+        match sel n st.ready with
+        | .err => [.cur n, .wait n as, .asyncAnn n ae, .announce n (some cur), .retSelErr]
+        | .panic => [.cur n, .wait n as, .asyncAnn n ae, .announce n (some cur), .retPanic]
+        | .ok excluded =>
         let mem := (List.range groupSize).map (· + 1)
-        let excluded := mem.filter (fun m => !st.ready.contains m)
         let included := mem.filter (fun m => !excluded.contains m)
         let to := ae + c.protocol
         let pre := [.cur n, .wait n as, .asyncAnn n ae, .announce n (some cur), .asyncTimeout n to,
@@ -120,8 +126,9 @@ def sgLoop (c : Consts) (groupSize thr member : Nat) : Nat → Nat → List SSte
           | .waitDoneErr => pre ++ .attempt n ae to excluded (some cur) :: .signal n :: .waitDone n :: next
           | .success => pre ++ [.attempt n ae to excluded (some cur), .signal n, .waitDone n, .retOk n to]
 
-def sgRun (c : Consts) (groupSize thr member s0 : Nat) (script : List SStep) : List Ev :=
-  sgLoop c groupSize thr member 0 s0 script
+def sgRun (c : Consts) (sel : Nat → List Nat → Out) (groupSize thr member s0 : Nat)
+    (script : List SStep) : List Ev :=
+  sgLoop c sel groupSize thr member 0 s0 script
 
 /-- one scripted iteration of the DKG loop -/
 structure DStep where
@@ -153,8 +160,8 @@ def dkLoop (c : Consts) (shuf : Nat → List Nat) (ops : List Addr) (quorum memb
         let to := ae + c.protocol
         if excluded.contains member then .wait n as :: .asyncAnn n ae :: .announce n none :: next
         else if st.fnErr then
-          .wait n as :: .asyncAnn n ae :: .announce n none :: .attempt n ae to excluded none :: next
-        else [.wait n as, .asyncAnn n ae, .announce n none, .attempt n ae to excluded none, .retOk n to]
+          .wait n as :: .asyncAnn n ae :: .announce n none :: .dattempt n ae to excluded st.ready.length :: next
+        else [.wait n as, .asyncAnn n ae, .announce n none, .dattempt n ae to excluded st.ready.length, .retOk n to]
 
 def dkRun (c : Consts) (shuf : Nat → List Nat) (ops : List Addr) (quorum member s0 : Nat)
     (script : List DStep) : List Ev :=
@@ -167,8 +174,9 @@ def evOk (c : Consts) (s0 : Nat) : Ev → Bool
   | .wait n b => decide (b = annStart c s0 n)
   | .asyncAnn n b => decide (b = annEnd c s0 n)
   | .asyncTimeout n b => decide (b = timeoutOf c s0 n)
-  | .listen n to _ => decide (to = timeoutOf c s0 n)
-  | .attempt n st to _ _ => decide (st = annEnd c s0 n) && decide (to = timeoutOf c s0 n)
+  | .listen n to _ => decide (1 ≤ n) && decide (to = timeoutOf c s0 n)
+  | .attempt n st to _ _ => decide (1 ≤ n) && (decide (st = annEnd c s0 n) && decide (to = timeoutOf c s0 n))
+  | .dattempt n st to _ _ => decide (1 ≤ n) && (decide (st = annEnd c s0 n) && decide (to = timeoutOf c s0 n))
   | .retOk n to => decide (to = timeoutOf c s0 n)
   | _ => true
 
@@ -181,10 +189,21 @@ def seenOk (c : Consts) (s0 : Nat) : Ev → Bool
 def holds (c : Consts) (s0 : Nat) (evs : List Ev) : Bool :=
   evs.all (fun e => evOk c s0 e && seenOk c s0 e)
 
+/-- The DKG loop enters attempt `n` only with the ready list the announcer returned in iteration `n`
+    (iterations are numbered from `k + 1` on) and only if that list has quorum. -/
+def dkgEntryOk (q k : Nat) (script : List DStep) : Ev → Bool
+  | .dattempt n _ _ _ r =>
+    decide (k < n) &&
+      (match script[n - k - 1]? with
+       | some st => decide (r = st.ready.length) && decide (q ≤ r)
+       | none => false)
+  | _ => true
+
 /-- blocks at which an event says attempt `n` times out -/
 def timeoutsOf : Ev → Option (Nat × Nat)
   | .listen n to _ => some (n, to)
   | .attempt n _ to _ _ => some (n, to)
+  | .dattempt n _ to _ _ => some (n, to)
   | _ => none
 
 /-- Non-overlap on the observed blocks alone: a later attempt `n'` starts (its announcement wait
